@@ -6,6 +6,7 @@ counterparts (`project`). Lists of any length, any order.
 -/
 import O2oModel.Lemmas.Lookup
 import O2oModel.Expand
+import O2oModel.Lemmas.Blocks
 namespace O2o
 
 /-- `project A` on member-level instructions: drop everything dedicated to a counterpart other than `ty` -/
@@ -142,5 +143,31 @@ theorem C06_variant_lookups (v : Variant) (ty : TypePath) (k : Kind) (fl : Bool)
     (v.attrs.project ty).lit ty = v.attrs.lit ty ∧ (v.attrs.project ty).pat ty = v.attrs.pat ty ∧
     (v.attrs.project ty).typeHint ty = v.attrs.typeHint ty :=
   ⟨C06_applicable_attr _ _ _ _, C06_lit _ _, C06_pat _ _, C06_type_hint _ _⟩
+
+end O2o
+
+namespace O2o
+
+/-- whether a member takes part in a conversion does not depend on instructions dedicated to other counterparts -/
+theorem C06_field_skipped (f : Field) (ctx : ImplContext) :
+    fieldSkipped ctx { f with attrs := f.attrs.project ctx.ty } = fieldSkipped ctx f := by
+  unfold fieldSkipped ghostNoDefault
+  simp only [C06_ghost, C06_has_parent]
+
+/-- C06-2 (whole flat body, any number of members): the member lines generated for counterpart `ty` are the same
+    whether or not the members carry instructions dedicated to other counterparts -/
+theorem C06_flat_body_projection (ctx : ImplContext) (hint : TypeHint) :
+    ∀ (fs : List Field) (idx : Nat),
+      flatLines ctx hint (fs.map fun f => { f with attrs := f.attrs.project ctx.ty }) idx = flatLines ctx hint fs idx
+  | [], _ => rfl
+  | f :: fs, idx => by
+    simp only [List.map_cons, flatLines, C06_field_skipped, C06_line_projection,
+      C06_flat_body_projection ctx hint fs idx, C06_flat_body_projection ctx hint fs (idx + 1)]
+
+/-- C06-2 (which variants contribute an arm) -/
+theorem C06_variant_contributes (v : Variant) (ctx : ImplContext) :
+    variantContributes ctx { v with attrs := v.attrs.project ctx.ty } = variantContributes ctx v := by
+  unfold variantContributes ghostNoDefault
+  simp only [C06_ghost]
 
 end O2o
